@@ -249,7 +249,7 @@ def cpp_part(widx, seed, tier, stats):
 
 def worker(widx, seed, tier, stats):
     n = {'quick': 300, 'thorough': 6000}[tier]
-    opts = gen.GenOpts(avoid=common.avoid_set(ID), tail_focus=6, rich_size_exprs=True)
+    opts = gen.GenOpts(avoid=common.avoid_set(ID), tail_focus=6, rich_size_exprs=True, oddunion_focus=6, smallopt_focus=6)
     runner.run_given(gen.schema_with_values(opts), body, seed, n, stats)
     if not stats.violations:
         cpp_part(widx, seed, tier, stats)
